@@ -125,9 +125,10 @@ var faultKinds = []faultKind{
 }
 
 type seqState struct {
-	lib      *dns.Msg
-	w        []byte // the model's uncompressed image (nil for an unpackable message)
-	baseline []byte // what the first pack of this message gave
+	lib        *dns.Msg
+	w          []byte // the model's uncompressed image (nil for an unpackable message)
+	baseline   []byte // what the first pack of this message gave
+	packedOnce bool   // an "unpackable" message that the library packed: it has been through a pack
 }
 
 // a small fixed message whose successful pack precedes every case: whatever the previous case left
@@ -206,6 +207,8 @@ func checkSeq(c seqCase) error {
 		if s.w == nil { // an unpackable message: only what it leaves behind matters
 			kind := faultKinds[sm.Fault-1].name
 			var err error
+			var p, buf []byte
+			before, ulBefore, ulReal := -1, len(arena)-600, -1
 			func() {
 				defer func() {
 					if r := recover(); r != nil {
@@ -213,11 +216,40 @@ func checkSeq(c seqCase) error {
 					}
 				}()
 				if op.LenFirst {
-					lib.Len()
+					// measured first, as a caller sizes his buffer: on the first operation that names this
+					// message the value has never been packed
+					lib.Compress = false
+					ulReal = lib.Len()
+					ulBefore = min(ulReal, len(arena)-1-63) // (the arena is sized by the packable messages)
+					lib.Compress = sm.Compress
+					before = lib.Len()
 				}
-				_, _, err = pack(len(arena)-600, 13)
+				p, buf, err = pack(ulBefore, 13)
 			}()
 			if err == nil {
+				// The library takes what the harness planted as unpackable: then it is a message "that
+				// can be packed" and the statement holds for it - the prediction taken BEFORE this pack
+				// covers the octets it produced (packing may complete the value: what a Len() taken
+				// afterwards says is a prediction for the next pack, checked when that pack comes),
+				// and a buffer longer than the uncompressed length taken before the call is used in place.
+				first := ""
+				if !s.packedOnce {
+					first = " (the first pack of this value)"
+					classes = append(classes, "unpackable-message-packed-first-time:"+kind)
+				}
+				s.packedOnce = true
+				if before >= 0 {
+					classes = append(classes, "unpackable-message-packed-measured-first:"+kind)
+					if before < len(p) {
+						return pbt.Errf("op %d: message %d (%s) can be packed after all: Len()=%d, taken before the pack%s, under-estimates the %d octets produced (compress=%v) [%s]", oi, op.Msg, kind, before, first, len(p), sm.Compress, describe())
+					}
+					if buf != nil && len(buf) > ulReal && len(p) > 0 && &p[0] != &buf[0] {
+						return pbt.Errf("op %d: message %d (%s) can be packed after all: PackBuffer did not write it into the caller's buffer of %d octets, longer than the uncompressed Len()=%d taken before the call%s (%d octets packed) [%s]", oi, op.Msg, kind, len(buf), ulReal, first, len(p), describe())
+					}
+				}
+				if after := lib.Len(); after < len(p) {
+					return pbt.Errf("op %d: message %d (%s) can be packed after all: Len()=%d, taken after the pack, under-estimates the %d octets produced (compress=%v) [%s]", oi, op.Msg, kind, after, len(p), sm.Compress, describe())
+				}
 				classes = append(classes, "unpackable-message-packed:"+kind)
 				history = append(history, fmt.Sprintf("op %d: message %d (%s) packed", oi, op.Msg, kind))
 				lastFailed = false
